@@ -27,6 +27,8 @@ Pg(PG, i) == PG[i]
 InList(s, list) == \E k \in 1..Len(list) : list[k] = s
 
 \* one _get_next_page step on the threaded reader state rd = [off, base, probes]
+\* a loop that used up its step bound leaves the mark -999 among the probes (the model's way of saying: this does not terminate as modelled)
+Out(rd) == [rd EXCEPT !.probes = Append(@, -999)]
 Next1(PG, rd, boundary, K) == LET g == GetNext(PG, rd, boundary, K) IN [r |-> g.r, rd |-> [rd EXCEPT !.off = g.off]]
 
 (* _fetch_headers(og_ptr = NULL): [ok, list, vser, rd] *)
@@ -34,7 +36,7 @@ Next1(PG, rd, boundary, K) == LET g == GetNext(PG, rd, boundary, K) IN [r |-> g.
 RECURSIVE FetchRest(_, _, _, _, _, _, _, _)
 FetchRest(PG, rd, list, vser, have, allbos, K, fuel) ==
   IF have >= 2 THEN [ok |-> TRUE, list |-> list, vser |-> vser, rd |-> rd]
-  ELSE IF fuel = 0 THEN [ok |-> FALSE, list |-> list, vser |-> vser, rd |-> rd]
+  ELSE IF fuel = 0 THEN [ok |-> FALSE, list |-> list, vser |-> vser, rd |-> Out(rd)]
   ELSE LET n == Next1(PG, rd, K.chunk, K) IN
        IF n.r = 0 THEN [ok |-> FALSE, list |-> list, vser |-> vser, rd |-> n.rd]
        ELSE LET p == PG[n.r] IN
@@ -45,7 +47,8 @@ FetchRest(PG, rd, list, vser, have, allbos, K, fuel) ==
 RECURSIVE FetchBos(_, _, _, _, _, _, _, _, _)
 FetchBos(PG, VS, rd, cur, list, hasv, vser, K, fuel) ==
   LET p == PG[cur] IN
-  IF ~p.bos \/ fuel = 0
+  IF fuel = 0 THEN [ok |-> FALSE, list |-> list, vser |-> vser, rd |-> Out(rd)]
+  ELSE IF ~p.bos
   THEN IF ~hasv THEN [ok |-> FALSE, list |-> list, vser |-> vser, rd |-> rd] ELSE FetchRest(PG, rd, list, vser, 0, FALSE, K, Len(PG) + 2)
   ELSE IF InList(p.ser, list) THEN [ok |-> FALSE, list |-> <<>>, vser |-> vser, rd |-> rd]          \* duplicate serial number among the BOS pages
   ELSE LET l2 == Append(list, p.ser)
@@ -63,7 +66,7 @@ FetchHeaders(PG, VS, rd, K) ==
 (* _initial_pcmoffset: [first, rd] *)
 RECURSIVE InitialPcm(_, _, _, _, _, _)
 InitialPcm(PG, rd, vser, acc, K, fuel) ==
-  IF fuel = 0 THEN [first |-> 0, rd |-> rd]
+  IF fuel = 0 THEN [first |-> 0, rd |-> Out(rd)]
   ELSE LET n == Next1(PG, rd, -1, K) IN
        IF n.r = 0 THEN [first |-> IF acc < 0 THEN 0 ELSE acc, rd |-> n.rd]
        ELSE LET p == PG[n.r] IN
@@ -76,7 +79,8 @@ InitialPcm(PG, rd, vser, acc, K, fuel) ==
 \* inner read loop of one back-step: s = [offset, pref, rser, rgran, gran]
 RECURSIVE PrevScan(_, _, _, _, _, _, _, _)
 PrevScan(PG, rd, end, list, want, s, K, fuel) ==
-  IF fuel = 0 \/ ~(rd.off < end) THEN [s |-> s, rd |-> rd]
+  IF fuel = 0 THEN [s |-> s, rd |-> Out(rd)]
+  ELSE IF ~(rd.off < end) THEN [s |-> s, rd |-> rd]
   ELSE LET n == Next1(PG, rd, end - rd.off, K) IN
        IF n.r = 0 THEN [s |-> s, rd |-> n.rd]
        ELSE LET p == PG[n.r]
@@ -86,8 +90,8 @@ PrevScan(PG, rd, end, list, want, s, K, fuel) ==
             IN PrevScan(PG, n.rd, end, list, want, s1, K, fuel - 1)
 RECURSIVE PrevBack(_, _, _, _, _, _, _, _, _)
 PrevBack(PG, rd, begin, end, list, want, s, K, fuel) ==
-  IF fuel = 0 THEN [ret |-> -1, ser |-> want, gran |-> s.gran, rd |-> rd]
-  ELSE LET b == IF begin - K.chunk < 0 THEN 0 ELSE begin - K.chunk
+  IF fuel = 0 THEN [ret |-> -1, ser |-> want, gran |-> s.gran, rd |-> Out(rd)]
+  ELSE LET b == IF begin - K.chunk < 0 /\ K.clamp THEN 0 ELSE begin - K.chunk      \* if(begin<0)begin=0;  (K.clamp = FALSE pins the rule without it)
            sc == PrevScan(PG, SeekTo(rd, b), end, list, want, s, K, Len(PG) + 2) IN
        IF sc.s.offset = -1
        THEN IF b = 0 THEN [ret |-> -1, ser |-> want, gran |-> sc.s.gran, rd |-> sc.rd] ELSE PrevBack(PG, sc.rd, b, end, list, want, sc.s, K, fuel - 1)
@@ -100,7 +104,7 @@ GetPrevSerial(PG, rd, begin, list, want, gran0, K) ==
 RECURSIVE FindLast(_, _, _, _, _, _, _, _, _)
 FindLast(PG, rd, searched, list, vser, found, gran, K, fuel) ==
   IF found THEN [ok |-> TRUE, searched |-> searched, gran |-> gran, rd |-> rd]
-  ELSE IF fuel = 0 THEN [ok |-> FALSE, searched |-> searched, gran |-> gran, rd |-> rd]
+  ELSE IF fuel = 0 THEN [ok |-> FALSE, searched |-> searched, gran |-> gran, rd |-> Out(rd)]
   ELSE LET r == GetPrevSerial(PG, rd, searched, list, vser, gran, K) IN
        IF r.ret < 0 THEN [ok |-> FALSE, searched |-> r.ret, gran |-> r.gran, rd |-> r.rd]
        ELSE FindLast(PG, r.rd, r.ret, list, vser, r.ser = vser, r.gran, K, fuel - 1)
@@ -108,7 +112,8 @@ FindLast(PG, rd, searched, list, vser, found, gran, K, fuel) ==
 (* the forward bisection for the end of the link that starts the range: [next, rd] *)
 RECURSIVE BisectEnd(_, _, _, _, _, _, _, _)
 BisectEnd(PG, rd, searched, endsearched, next, list, K, fuel) ==
-  IF fuel = 0 \/ ~(searched < endsearched) THEN [next |-> next, rd |-> rd]
+  IF fuel = 0 THEN [next |-> next, rd |-> Out(rd)]
+  ELSE IF ~(searched < endsearched) THEN [next |-> next, rd |-> rd]
   ELSE LET bisect == IF endsearched - searched < K.chunk THEN searched ELSE (searched + endsearched) \div 2
            n == Next1(PG, SeekTo(rd, bisect), -1, K) IN
        IF n.r = 0 \/ ~InList(PG[n.r].ser, list)
@@ -118,7 +123,7 @@ BisectEnd(PG, rd, searched, endsearched, next, list, K, fuel) ==
 (* _bisect_forward_serialno: [ok, links, rd]; links = the records of link m, m+1, ... (first/doff of link m are filled in by the caller) *)
 RECURSIVE BisectForward(_, _, _, _, _, _, _, _, _, _, _, _)
 BisectForward(PG, VS, rd, begin, searched, end, endgran, endserial, list, vser, K, fuel) ==
-  IF fuel = 0 THEN [ok |-> FALSE, links |-> <<>>, rd |-> rd]
+  IF fuel = 0 THEN [ok |-> FALSE, links |-> <<>>, rd |-> Out(rd)]
   ELSE IF InList(endserial, list)
   THEN LET f == FindLast(PG, rd, end, list, vser, endserial = vser, endgran, K, Len(PG) + 2) IN
        IF ~f.ok THEN [ok |-> FALSE, links |-> <<>>, rd |-> f.rd]
